@@ -863,7 +863,7 @@ func cbChooser(maxInflight int, arriveW, completeW, advanceW int, burst bool) cb
 func genCBConfig(r *rand.Rand, depth int) cbConfig {
 	return cbConfig{
 		Fallback:    pick(r, []time.Duration{500 * time.Millisecond, time.Second, 2 * time.Second, 5 * time.Second}),
-		Recovery:    pick(r, []time.Duration{time.Second, 2 * time.Second, 4 * time.Second, time.Second, 2 * time.Second, 4 * time.Second, 0, 300 * time.Millisecond, 15 * time.Second}), // 15s: longer than the 10s counter window; 0: no ramp at all, standby right after the arrival that ends the tripped state
+		Recovery:    pick(r, []time.Duration{time.Second, 2 * time.Second, 4 * time.Second, time.Second, 2 * time.Second, 4 * time.Second, 0, 300 * time.Millisecond, 15 * time.Second, 12 * time.Second}), // 15s: longer than the 10s counter window; 0: no ramp at all, standby right after the arrival that ends the tripped state
 		CheckPeriod: pick(r, []time.Duration{0, 100 * time.Millisecond, time.Second}),
 		Cond:        genCond(r, depth),
 		FormatLogs:  r.IntN(2) == 0,
